@@ -271,7 +271,8 @@ def run_property(prop, tier="quick", seed=0, record_expected=False, only=None, j
     # a listed finding that no longer fails is simply not printed
     for r, rpath, suffix in violations:
         lines.append(f"VIOLATION property={prop} replay={rpath}{suffix}")
-        lines.append(f"  obligation {r['name']} refuted by {r['backend']}: {(r.get('detail') or '')[:300]} model={json.dumps(r.get('model'), default=str)[:400]}")
+        verb = "refuted by" if r["status"] == "refuted" else "not decided by the solvers, a failing input was found by the native replay; back ends"
+        lines.append(f"  obligation {r['name']} {verb} {r['backend']}: {(r.get('detail') or '')[:300]} model={json.dumps(r.get('model'), default=str)[:400]}")
     for r in undecided:
         lines.append(f"UNDECIDED property={prop} obligation={r['name']} ({r['backend']}): {(r.get('detail') or '')[:300]}")
     for c in missing:
